@@ -32,7 +32,7 @@ RULE = ("states = distinct (generated code, dataset) pairs reached by BFS from t
         "the reference interpreter and the model evaluator both produced values that were compared")
 ASSUMPTIONS = ["grid: parameters at init and 0.8*init, etas/eps in {0,+0.3,-0.2,+-0.1}; first 3 individuals of pheno",
                "refusals (ValueError/NotImplementedError/ModelError) of a transformation end the branch and are not failures"]
-BOUNDS = {"quick": "structural alphabet depth 2 from pheno, pheno+FO absorption, pheno with a block IF and pheno+FO absorption coded as ADVAN2 TRANS1, then one step of the full alphabet on depth<=1 states (cap 640 states); sibling round: every ordered pair (A, B) of the full alphabet derived from ONE start object",
+BOUNDS = {"quick": "structural alphabet depth 2 from pheno, pheno+FO absorption, pheno with a block IF and pheno+FO absorption coded as ADVAN2 TRANS1, then one step of the full alphabet on depth<=1 states (no cap); sibling round: every ordered pair (A, B) of the full alphabet derived from ONE start object",
           "thorough": "structural alphabet depth 3, full alphabet on depth<=2 states (cap 6000 states)"}
 
 START = ["pheno", "pheno_oral", "pheno_blockif", "pheno_oral_trans1"]  # the last: a symbol assigned by a plain statement, then in both branches of a block IF
@@ -55,7 +55,7 @@ def drive(tier):
     import sys
 
     mod = sys.modules[__name__]
-    results = seqx.drive(mod, tier, START, depth_limit=2 if tier == "quick" else 3, max_states=640 if tier == "quick" else 6000)
+    results = seqx.drive(mod, tier, START, depth_limit=2 if tier == "quick" else 3, max_states=None if tier == "quick" else 6000)
     if any("harness_error" in r for r in results):
         return results
     # sibling round: two derivations from ONE parent object (the BFS gives every call a private dataset copy, so a
